@@ -18,14 +18,14 @@ import datetime as _dt
 import json
 import random
 
-from translate import classtable
+from translate import classrows, classtable
 
 PROP = "C12"
 LEAN_PROPS = "PysamlModel.Props.C12"
 MODEL_TARGETS = ["PysamlModel.Gen.ClassTable", "PysamlModel.Model.ObjModel", "PysamlModel.Spec.C12"]
 AUDIT = "PysamlModel/Audit/C12.lean"
 DRIVER = "Drivers/C12.lean"
-GEN = [classtable.generate]
+GEN = [classtable.generate, classrows.gen_all]  # the second one is C13's translator (XSDs + class rows), used read-only
 CORRESPONDENCE = ("Drivers/C12.lean (harvest ∘ wire ∘ serialise, parseDoc) vs SamlBase.to_string / "
                   "<element>_from_string on every class of Gen/ClassTable.lean")
 RULE = ("every class of the regenerated table x random instances (depth <= 4; attribute values/text over XML 1.0 "
@@ -156,13 +156,22 @@ def clark(ns, local):
     return local if ns is None else "{%s}%s" % (ns, local)
 
 
-def gen_attr_name(rng, forbidden, declared=()):
+XMLNS = "http://www.w3.org/XML/1998/namespace"
+
+
+def qualified_variants(base, own_ns):
+    """The local name of a declared attribute in the name spaces a lax reader might confuse with it:
+    the element's OWN namespace, a foreign one, xml:, xsi:."""
+    return [clark(ns, base) for ns in (own_ns, "urn:x", XMLNS, XSI) if ns]
+
+
+def gen_attr_name(rng, forbidden, declared=(), own_ns=None):
     """A foreign attribute name (Clark notation), sometimes a look-alike of a declared one."""
     for _ in range(50):
         if declared and rng.random() < 0.3:
             d = rng.choice(list(declared))
             base = d.rsplit("}", 1)[-1]
-            name = rng.choice([clark("urn:x", base), base + "_", base.lower(), base.upper(), "x" + base])
+            name = rng.choice(qualified_variants(base, own_ns) + [base + "_", base.lower(), base.upper(), "x" + base])
         else:
             ns = rng.choice(NSS) if rng.random() < 0.4 else None
             name = clark(ns, rng.choice(NCNAMES))
@@ -246,7 +255,7 @@ def gen_inst(rng, cid, depth, opt, budget=None):
         ee.append(e)
     ea, seen = [], {a[0] for a in cd["attrs"]}
     for _ in range(rng.choice([0, 0, 0, 1, 2])):
-        n = gen_attr_name(rng, seen, [a[0] for a in cd["attrs"]])
+        n = gen_attr_name(rng, seen, [a[0] for a in cd["attrs"]], cd["ns"])
         seen.add(n)
         ea.append([n, gen_attr_value(rng)])
     return {"c": cid, "a": attrs, "s": slots, "t": t, "ee": ee, "ea": ea}
@@ -507,7 +516,7 @@ def gen_tree(rng, cid, depth, budget=None):
             attrs.append([xml, gen_attr_value(rng)])
             seen.add(xml)
     for _ in range(rng.choice([0, 0, 1, 2])):
-        n = gen_attr_name(rng, seen | set(names), names)
+        n = gen_attr_name(rng, seen | set(names), names, cd["ns"])
         seen.add(n)
         attrs.append([n, gen_attr_value(rng)])
     if cd["kind"] == "attrValue":
@@ -846,11 +855,133 @@ def regression_cases(rng):
         yield mk_rt(dict(_blank(c), ee=[e]), "av-ext")
 
 
+def attr_namespace_cases(rng, tier):
+    """Every class x every declared attribute: the attribute's local name qualified with the element's own
+    namespace, a foreign namespace, xml: and xsi:, alone and together with the declared (unqualified) one.
+    Expected (spec): the declared member is untouched, each qualified one is an extension attribute and is
+    written back qualified."""
+    for cd in T():
+        if cd["kind"] != "plain":
+            continue
+        declared = {a[0] for a in cd["attrs"]}
+        for j, (xml, _m) in enumerate(cd["attrs"]):
+            base = xml.rsplit("}", 1)[-1]
+            variants = [v for v in qualified_variants(base, cd["ns"]) if v not in declared]
+            if xml != base and base not in declared:
+                variants.append(base)  # a declared qualified attribute (xml:lang): the bare local name
+            if not variants:
+                continue
+            for together in (False, True):
+                vals = [[v, "q%d-%s" % (k, gen_attr_value(rng))] for k, v in enumerate(variants)]
+                # document: all variants at once (distinct names), in random order, with/without the declared one
+                attrs = list(vals) + ([[xml, "declared"]] if together else [])
+                rng.shuffle(attrs)
+                yield mk_parse(cd["id"], {"q": class_tag(cd), "a": attrs, "t": None, "k": []}, rng,
+                               style={} if rng.random() < 0.5 else None)
+                # one variant alone as well (own namespace first)
+                if tier != "quick" or together:
+                    one = [[variants[0], "only"]] + ([[xml, "declared"]] if together and rng.random() < 0.5 else [])
+                    yield mk_parse(cd["id"], {"q": class_tag(cd), "a": one, "t": None, "k": []}, rng, style={})
+                # instance: the variants as extension attributes, the declared attribute set or not
+                inst = _blank(cd["id"])
+                for k, init in enumerate(cd["init"]):
+                    if init is not None or any(cd["attrs"][k][0] == d for d, _ in cd["defaults"]):
+                        inst["a"][k] = init if init is not None else "set"
+                if together:
+                    inst["a"][j] = "declared"
+                if not together and (cd["init"][j] is not None or any(xml == d for d, _ in cd["defaults"])):
+                    pass  # a defaulted attribute stays set (its absence is a recorded defect of its own)
+                inst["ea"] = vals
+                yield mk_rt(inst, "attr-ns")
+
+
+_XSD = {}
+
+
+def xsd_positions(cid):
+    """Oracle that does NOT come from the class tables: the position of each child element name in the XSD
+    content model of the class's element (xmlschema over the XSD files shipped in saml2/data/schemas).
+    Only content models that are a sequence at top level; nested plain sequences are flattened; any other
+    nested group (choice, repeated group) is ONE position, of which a document uses one alternative.
+    -> {clark tag: (position, is_group)} or None."""
+    if cid in _XSD:
+        return _XSD[cid]
+    from saml2.xml import schema as SX
+    from xmlschema.validators import XsdElement, XsdGroup
+
+    cd = T()[cid]
+    res = None
+    el = SX._schema_validator_default.maps.elements.get("{%s}%s" % (cd["ns"], cd["tag"]))
+    content = getattr(getattr(el, "type", None), "content", None) if el is not None else None
+    if isinstance(content, XsdGroup) and content.model == "sequence" and cd["module"] != "saml2.schema.soapenv":
+        res, pos = {}, [0]
+
+        def flat(g):
+            for p in g:
+                if isinstance(p, XsdGroup):
+                    if p.model == "sequence" and p.max_occurs == 1:
+                        flat(p)
+                    else:
+                        for q in p.iter_elements():
+                            if isinstance(q, XsdElement) and q.name not in res:
+                                res[q.name] = (pos[0], True)
+                        pos[0] += 1
+                else:
+                    if isinstance(p, XsdElement) and p.name not in res:
+                        res[p.name] = (pos[0], False)
+                    pos[0] += 1
+
+        flat(content)
+    _XSD[cid] = res
+    return res
+
+
+def xsd_order_cases(rng, tier):
+    """Schema-ordered documents (children ordered by the XSD sequence, no extension children): parsing and
+    serialising again must keep the children in that order.  Every class with an XSD element: every pair of
+    declared children, all declared children at once, and random selections with repeated list members."""
+    tbl = T()
+    for cd in tbl:
+        if cd["kind"] != "plain" or len(cd["children"]) < 2:
+            continue
+        posn = xsd_positions(cd["id"])
+        if not posn:
+            continue
+        decls = [(posn[clark(ch[0], ch[1])], ch) for ch in cd["children"] if ch[3] is not None and clark(ch[0], ch[1]) in posn]
+        if len(decls) < 2:
+            continue
+
+        def doc(sel):
+            # at most one alternative per XSD group position; sorted by XSD position (stable)
+            used, kids = {}, []
+            for (p, grp), ch in sorted(sel, key=lambda d: d[0][0]):
+                if grp and used.setdefault(p, ch[1]) != ch[1]:
+                    continue
+                n = rng.choice([1, 1, 2]) if ch[4] else 1
+                for _ in range(n):
+                    kids.append(gen_tree(rng, ch[3], 0))
+            return {"q": class_tag(cd), "a": [], "t": None, "k": kids}
+
+        sels = [[a, b] for i, a in enumerate(decls) for b in decls[i + 1:]] + [list(decls)]
+        for _ in range(2 if tier == "quick" else 10):
+            sels.append(rng.sample(decls, rng.randint(2, len(decls))))
+        for sel in sels:
+            tree = doc(sel)
+            if len({tuple(k["q"]) for k in tree["k"]}) >= 2:
+                c = mk_parse(cd["id"], tree, rng, style=None if rng.random() < 0.5 else {})
+                c["op"] = "xsdorder"
+                yield c
+
+
 def gen_cases(rng, tier):
     if "cls" not in _S:
         setup()
     tbl = T()
     for c in regression_cases(rng):
+        yield c
+    for c in attr_namespace_cases(rng, tier):
+        yield c
+    for c in xsd_order_cases(rng, tier):
         yield c
     per_rt = 10 if tier == "quick" else 80
     per_parse = 5 if tier == "quick" else 40
@@ -987,6 +1118,8 @@ def search_cases(rng, broken, build_log):
                 if ch[3] is not None and not inst["s"][j]:
                     inst["s"][j] = [gen_inst(rng, ch[3], 0, {})]
             yield mk_rt(inst, "fill-all")
+    for c in xsd_order_cases(rng, "thorough"):
+        yield c
 
 
 # ------------------------------------------------------------------ implementation side
@@ -1021,6 +1154,19 @@ def run_impl(case):
 
         order = [list(classtable.split_clark(ch.tag)) for ch in ElementTree.fromstring(s.encode("utf-8"))]
         return {"r": "obj", "o": o, "same": s2 == s, "order": order}
+    if case["op"] == "xsdorder":
+        from xml.etree import ElementTree
+
+        doc = render(case)
+        cid = case["cls"]
+        try:
+            p = parse_with(cid, doc)
+            s = None if p is None else p.to_string()
+        except Exception as e:
+            return {"r": "raised", "exc": type(e).__name__}
+        if p is None:
+            return {"r": "raised", "exc": "None"}
+        return {"r": "order", "order": [list(classtable.split_clark(ch.tag)) for ch in ElementTree.fromstring(s)]}
     if case["op"] == "parse":
         doc = render(case)
         cid = case["cls"]
@@ -1179,6 +1325,8 @@ def shrink(case):
     else:
         x = case["tree"]
         for j in range(len(x["k"])):
+            if case["op"] == "xsdorder" and len(x["k"]) <= 2:
+                break
             yield dict(case, tree=dict(x, k=x["k"][:j] + x["k"][j + 1:]))
         for j in range(len(x["a"])):
             yield dict(case, tree=dict(x, a=x["a"][:j] + x["a"][j + 1:]))
@@ -1205,8 +1353,10 @@ def distribution(recs):
         d["ops"][c["op"]] = d["ops"].get(c["op"], 0) + 1
         if c["op"] == "rt":
             crt.add(c["inst"]["c"])
-        else:
+        elif c["op"] == "parse":
             cpa.add(c["cls"])
+        else:
+            d.setdefault("classes_xsdorder_set", set()).add(c["cls"])
         k = c["op"] + ":" + str(r["impl"].get("r"))
         d["impl_outcomes"][k] = d["impl_outcomes"].get(k, 0) + 1
         if c.get("note"):
@@ -1214,5 +1364,6 @@ def distribution(recs):
         for b in r["lean"].get("branches", []) or []:
             d["branches"][b] = d["branches"].get(b, 0) + 1
     d["classes_rt"], d["classes_parse"] = len(crt), len(cpa)
+    d["classes_xsdorder"] = len(d.pop("classes_xsdorder_set", ()))
     d["classes_in_table"] = len(T())
     return d
